@@ -20,7 +20,7 @@ CHECKS = {
             "Each built-in nonlinear function is interpreted for D in {1,2,3}, all flag rows and both parities with a symbolic spectrum; the per-channel canonical form (which products, which derivative multipliers, pre- and post-dealiasing masks, signs, scales) must equal the documented operator; the mask predicate and the alias-free inequality (p+1)*cutoff < N are decided exactly for N=2m and N=2m+1.",
             "Does not compare numbers with a fine-grid oracle; FFT exactness trusted.", "3 C03"),
     "C04": (OT, "axis-role abstract interpretation of the spectral layout functions + sibling agreement + per-world scaling tables",
-            "The transform pair, wavenumber layout, scaling arrays (DC/interior/Nyquist per axis), mode slices, masks and grid construction are evaluated with symbolic axes that remember which array axis they vary along; all must agree on 'leading axes full, last axis halved' for D in {1,2,3}, N even/odd, both indexings.",
+            "The transform pair, wavenumber layout, scaling arrays (DC/interior/Nyquist per axis), mode slices, masks and grid construction are evaluated with symbolic axes that remember which array axis they vary along; all must agree on 'leading axes full, last axis halved' for D in {1,2,3}, N even/odd, both indexings; consumers of the indexing option (derivative, make_incompressible, coefficient read-off) must return the axis-relabelled ij result; ifft with inferred sizes must undo fft.",
             "Numeric round trip of jnp.fft is library behaviour (not decided).", "3 C04"),
     "C05": (TV, "algebraic value numbering of derivative / Laplace / gradient-inner-product / Poisson operators vs analytic symbols; guard dominance",
             "derivative, build_laplace_operator, build_gradient_inner_product_operator and Poisson are interpreted for D in {1,2,3}, orders 1..6, C in {1,2,3}; canonical forms must equal (i k)^order symbols; Poisson must satisfy Laplace^order * u = -f off DC and u(0)=0; parity guards must raise.",
@@ -29,7 +29,7 @@ CHECKS = {
             "Constructors and call paths of every exported stepper, wrapper, integrator and nonlinear function are interpreted with every float parameter symbolic (what eqx.filter_vmap traces) and with a symbolic state; any Python-level control flow, bool()/float()/int() coercion, shape computed from a value, isinstance(float) dispatch, or attribute mutation outside __init__ is reported with its site.",
             "Necessary condition only: equality of the numbers under jit/vmap is JAX's contract and not decided.", "3 C06"),
     "C07": (OT, "banned-construct and where-guard rules over the reachable call graph + syntactic linearity of order-0 steps (canonical form homogeneous of degree 1 in the state)",
-            "No AD-blocking construct (stop_gradient, rounding/sign/argmax, integer casts, numpy, callbacks, while_loop) on differentiated paths; every masked singular expression depends on geometry only or uses the guard-before-divide idiom; loops are lax.scan with static length; linear steppers are linear maps of the state.",
+            "No AD-blocking construct (stop_gradient, rounding/sign/argmax, integer casts, numpy, callbacks, while_loop) on differentiated paths; every masked singular expression depends on geometry only or uses the guard-before-divide idiom; no sqrt / norm / fractional power / log / division applied to a state-dependent value that can vanish; loops are lax.scan with static length; linear steppers are linear maps of the state.",
             "Necessary conditions only: agreement of JAX derivatives with finite differences is the correctness of JAX AD and is not decided.", "3 C07"),
     "C08": (TV, "symmetry algebra on canonical forms: axis/channel permutation invariance, embedding reduction, shift-commuting building blocks only",
             "The canonical symbols and nonlinear terms computed for C01/C03 are renamed under every axis permutation (with the velocity channels) and must be unchanged; with all but one derivative symbol zero they must reduce to the 1-D forms; only Fourier multipliers, masks, pointwise products and global means may occur; state-independent additive spectra only in the documented forced classes.",
@@ -60,7 +60,7 @@ CHECKS = {
     "C17": (TV, "value numbering of get_spectrum: weights, half-open bucket predicate, bin range, reducers, channel map",
             "magnitude and power weights, closed-below/open-above bucket predicate, bins 0..N//2, nansum/nanmean reducers, vmap over channels, for D in {1,2,3}.", "Numeric Parseval not decided.", "3 C17"),
     "C18": (OT, "shape-domain interpretation of every generator + PRNG-key typestate + option-validation sibling rule + formula checks of normalisation/offset/clamp/scale",
-            "Channel count and spatial shape, key discipline (every draw from a split descendant, no reuse), validation guards, normalisation order, offset = mean, clamp/scale formulas, function form == sampled form.",
+            "Channel count and spatial shape, key discipline (every draw from a split descendant, no reuse), validation guards, normalisation order, offset = mean, clamp/scale formulas, documented ranges of every random parameter (lo + (hi-lo)*U), function form == sampled form.",
             "Statistics of sampled values not decided.", "3 C18"),
     "C19": (OT, "banned-construct rule (hard-coded precisions) + contour-shift rule on the canonical coefficient integrands + accumulator typing",
             "No floating/complex width pinned on state paths; every division by a quantity derived from the linear symbol is contour-shifted; the only direct functions of dt*lambda are exps; accumulators take the operator's dtype.",
